@@ -192,6 +192,93 @@ func (c *Ctx) lexTables() (*lexTables, error) {
 			}
 		}
 	}
+	// a table may also be written as a function: a switch over the rune (or word) returning the token constant(s)
+	if found != 3 {
+		for _, it := range c.sortedDecls() {
+			fn, ok := it.obj.(*types.Func)
+			if !ok || it.fd.Body == nil || fn.Pkg() == nil || fn.Pkg().Path() != bclPath {
+				continue
+			}
+			sig := fn.Type().(*types.Signature)
+			if sig.Recv() != nil || sig.Params().Len() != 1 {
+				continue
+			}
+			pt := sig.Params().At(0).Type()
+			res := sig.Results()
+			kind := ""
+			switch {
+			case isRune(pt) && res.Len() == 2 && isTok(res.At(0).Type()) && len(lt.OneRune) == 0:
+				kind = "one"
+			case isRune(pt) && res.Len() == 3 && isRune(res.At(0).Type()) && isTok(res.At(1).Type()) && len(lt.TwoRune) == 0:
+				kind = "two"
+			case isString(pt) && res.Len() == 2 && isTok(res.At(0).Type()) && len(lt.Keywords) == 0:
+				kind = "kw"
+			default:
+				continue
+			}
+			var sw *ast.SwitchStmt
+			for _, st := range it.fd.Body.List {
+				if x, ok := st.(*ast.SwitchStmt); ok && x.Tag != nil && c.isObj(x.Tag, c.paramObj(it.fd, 0)) {
+					sw = x
+				}
+			}
+			if sw == nil {
+				continue
+			}
+			okTab := true
+			entries := 0
+			for _, arm := range c.switchArms(sw) {
+				if arm.Default {
+					continue
+				}
+				if len(arm.Body) != 1 {
+					okTab = false
+					continue
+				}
+				rs, isR := arm.Body[0].(*ast.ReturnStmt)
+				if !isR || len(rs.Results) != res.Len() {
+					okTab = false
+					continue
+				}
+				for _, v := range arm.Vals {
+					if v == nil {
+						okTab = false
+						continue
+					}
+					switch kind {
+					case "one":
+						k, _ := constant.Int64Val(v)
+						t, okT := c.intConst(rs.Results[0])
+						if !okT {
+							okTab = false
+							continue
+						}
+						lt.OneRune[string(rune(k))] = constNameOf(toks, t)
+					case "two":
+						k, _ := constant.Int64Val(v)
+						r2, ok2 := c.intConst(rs.Results[0])
+						t, okT := c.intConst(rs.Results[1])
+						if !ok2 || !okT {
+							okTab = false
+							continue
+						}
+						lt.TwoRune[string(rune(k))+string(rune(r2))] = constNameOf(toks, t)
+					case "kw":
+						t, okT := c.intConst(rs.Results[0])
+						if !okT || v.Kind() != constant.String {
+							okTab = false
+							continue
+						}
+						lt.Keywords[constant.StringVal(v)] = constNameOf(toks, t)
+					}
+					entries++
+				}
+			}
+			if okTab && entries > 0 {
+				found++
+			}
+		}
+	}
 	if found != 3 {
 		return nil, fmt.Errorf("expected the three lexer tables (keywords, one-rune, two-rune), found %d", found)
 	}
